@@ -3,6 +3,7 @@ import JunoModel.C03.ProofsLegacy
 import JunoModel.C03.ProofsSys
 import JunoModel.C03.ProofsCasm
 import JunoModel.C03.ProofsPatch
+import JunoModel.C03.ProofsProgress
 /-!
 C03 — property theorems (statements only; helper lemmas are in `Proofs*.lean`; statements about
 proposed patches that are not in the tree are in `ProofsPatch.lean` and are NOT obligations).
@@ -35,6 +36,30 @@ theorem run_chain {σ : Type} (be : Backend σ) (ops : List Op) (nd : Node σ)
     (hrun : run be (Node.init be) ops = some nd) : nd.chain = chainOf ops := by
   have := run_blocks be ops (Node.init be) nd hrun
   simp [Node.chain, chainOf, this, Node.init]
+
+/-- PROGRESS, both backends (block store of the tree): a history in which every stored block is
+consistent with the state below it (`Valid`: well-formed; deploys only addresses without contract;
+replaces classes, sets nonces and writes storage only of contracts that exist, the system contracts
+excepted; declares Sierra classes once and migrates only classes declared earlier under an older
+protocol, with juno's own hash) and every revert finds a block RUNS: no guard of `Update`, `Revert`
+or of the CASM metadata fires, `legacyValueAt` is never missing a log in a revert. So the hypothesis
+`run … = some nd` of the theorems below filters out nothing but blocks juno's guards reject. -/
+theorem valid_history_runs (cfg : Cfg) (hmf : cfg.migValFix = false) (ops : List Op) (h : OpsValid ops []) :
+    (∃ nd, run (newBackend cfg) (Node.init (newBackend cfg)) ops = some nd) ∧
+    (∃ nd, run legacyBackend (Node.init legacyBackend) ops = some nd) := by
+  constructor
+  · exact run_progress (newBackend cfg) hmf (NInv cfg)
+      (fun ch s s' d hI hd hu => ninv_store cfg ch s s' d hI hd hu)
+      (fun d rest s s' hI hr => ninv_revert cfg d rest s s' hI hr)
+      (fun ch s d hI hv => new_update_succeeds cfg ch s d hI hv)
+      (fun d rest s hI hv => new_revert_succeeds cfg d rest s hI hv)
+      ops (Node.init (newBackend cfg)) (ninv_init cfg) minv_init trivial h
+  · exact run_progress legacyBackend rfl LInv
+      (fun ch s s' d hI hd hu => linv_store ch s s' d hI hd hu)
+      (fun d rest s s' hI hr => linv_revert d rest s s' hI hr)
+      (fun ch s d hI hv => legacy_update_succeeds ch s d hI hv)
+      (fun d rest s hI hv => legacy_revert_succeeds d rest s hI hv)
+      ops (Node.init legacyBackend) linv_init minv_init trivial h
 
 /-- NEW BACKEND, views by number: after any history, for every retained block `n`, every contract
 address / slot / class hash: the historical reader answers exactly what the state diffs up to
@@ -488,6 +513,22 @@ example : OpsWF exampleHistory := by
   rcases hm with h | h | h | h <;> (obtain ⟨_, rfl⟩ := h; decide)
 
 example : OpsFresh exampleHistory [] := by simp [exampleHistory, OpsFresh]
+
+/-- … and every block of it is valid on top of the chain below it (hypothesis of `valid_history_runs`) -/
+example : OpsValid exampleHistory [] := by
+  have noCasm : ∀ (ch : List Diff) (d : Diff), d.declared1 = [] → d.migrated = [] →
+      CasmStep ch d ∧ (d.v2 = true → ∀ p ∈ d.migrated, ∃ mt, metaOf ch p.1 = some mt ∧ mt.migratedAt = 0 ∧
+        mt.v1.isSome = true ∧ mt.declaredAt < ch.length) ∧ MigOwnHash ch d := by
+    intro ch d h1 h2
+    refine ⟨⟨by simp [h1], by simp [h2], by simp [h1], by simp [h1], fun _ => h2⟩, ?_, ?_⟩
+    · intro _ p hp; rw [h2] at hp; cases hp
+    · intro p hp; rw [h2] at hp; cases hp
+  simp only [exampleHistory, OpsValid, List.tail_cons, and_true]
+  refine ⟨?_, ?_, ?_, by decide, ?_⟩
+  all_goals
+    first
+    | exact ⟨Diff.wfb_sound _ (by decide), by decide, by decide, by decide, by decide,
+        (noCasm _ _ rfl rfl).1, (noCasm _ _ rfl rfl).2.1, (noCasm _ _ rfl rfl).2.2⟩
 
 /-- … and the no-drain hypothesis (block 3 writes to the system contract 0x1 and leaves it non-empty) -/
 example : OpsOK (fun ch d => d.WF ∧ NoDrainStep ch d) exampleHistory [] := by
